@@ -14,9 +14,11 @@
 (*   - functional core: Apply(s, a) is the SET of states action a may      *)
 (*     lead to from state s; Next and the trace specification use the      *)
 (*     same operator;                                                      *)
-(*   - modification times appear only as the two relations the rule reads  *)
-(*     (config newer than artifact, issuer's artifact newer than own),     *)
-(*     which are closed under every action: no clock, finite state space.  *)
+(*   - modification times appear only as what the rule can read: per       *)
+(*     entity whether its config is newer than its artifact, and the       *)
+(*     ORDER of the artifact files by modification time (s.mt, oldest      *)
+(*     first) - closed under every action, also under a change of the      *)
+(*     issuer relation: no clock, finite state space.                      *)
 (*                                                                         *)
 (* Abstraction of content: every entity's configuration carries one        *)
 (* content value that shows in its subject DN, so a certificate tells      *)
@@ -28,7 +30,9 @@ EXTENDS Plan, TLC
 
 CONSTANTS
   Ents,        \* set of entity names (strings)
-  Parent,      \* [Ents -> Ents \cup {""}] : issuer, "" for a root
+  Parent,      \* [Ents -> Ents \cup {""}] : issuer at the start, "" for a root
+  AltParents,  \* [Ents -> SUBSET (Ents \cup {""})] : the issuers the user may write into e's configuration
+               \* (SetIssuer); must not allow a cycle
   Contents,    \* content values, e.g. {0, 1}
   FlagSets,    \* the flag sets a run may be started with
   EnvActs,     \* names of the environment actions that are enabled
@@ -38,15 +42,19 @@ CONSTANTS
 
 NoHash == 99            \* "no hash line"; not a content value
 
-Roots       == {e \in Ents : Parent[e] = ""}
-Children(e) == {c \in Ents : Parent[c] = e}
-IsLeaf(e)   == Children(e) = {}
+\* the issuer relation is part of the state (s.par): the user can edit it
+Children(s, e) == {c \in Ents : s.par[c] = e}
+IsLeaf(s, e)   == Children(s, e) = {}
 
 \* hash / certc: content value of the entity's own configuration the stored hash / the certificate stands for;
 \* hashp / certp: the same for the profile part of the effective configuration (0 for entities without profile);
+\* hashi: the issuer the hashed configuration names ("" for none);
+\* iss: the entity the certificate's issuer DN names ("" = the entity itself: self-signed); issc: that DN's content value;
+\* sigok: the certificate verifies under the public key of the current certificate of the entity `iss` names (its own
+\*        when iss = "") - whether that entity is (still) the configured issuer is a separate question (ChainOK);
 \* expired: the certificate's notAfter lies in the past
-Absent == [exists |-> FALSE, hash |-> NoHash, hashp |-> 0, cert |-> FALSE, certc |-> 0, certp |-> 0, issc |-> 0, key |-> "none",
-           sigok |-> FALSE, expired |-> FALSE]
+Absent == [exists |-> FALSE, hash |-> NoHash, hashp |-> 0, hashi |-> "", cert |-> FALSE, certc |-> 0, certp |-> 0, iss |-> "", issc |-> 0,
+           key |-> "none", sigok |-> FALSE, expired |-> FALSE]
 
 \* cut classes of a torn or truncated artifact file: what a reader still finds.
 \* The file is "#HASH line, CERTIFICATE, then PRIVATE KEY or CERTIFICATE REQUEST".
@@ -56,7 +64,7 @@ CutClasses == {"empty", "hashonly", "nokey"}
 \*   nokey    : cut after the certificate block or inside the key/request block
 Prefix(a, cut) ==
   CASE cut = "empty"    -> [Absent EXCEPT !.exists = TRUE]
-    [] cut = "hashonly" -> [Absent EXCEPT !.exists = TRUE, !.hash = a.hash, !.hashp = a.hashp]
+    [] cut = "hashonly" -> [Absent EXCEPT !.exists = TRUE, !.hash = a.hash, !.hashp = a.hashp, !.hashi = a.hashi]
     [] cut = "nokey"    -> [a EXCEPT !.key = "none"]
 
 ArtOK(a) ==
@@ -64,13 +72,17 @@ ArtOK(a) ==
   /\ a.hash \in Contents \cup {NoHash}
   /\ a.certc \in Contents /\ a.issc \in Contents /\ a.hashp \in Contents /\ a.certp \in Contents /\ a.expired \in BOOLEAN
   /\ a.key \in {"none", "key", "csr"}
+  /\ a.hashi \in Ents \cup {""} /\ a.iss \in Ents \cup {""}
   /\ (~a.exists => a = Absent)
-  /\ (~a.cert => a.certc = 0 /\ a.certp = 0 /\ a.issc = 0 /\ a.sigok = FALSE /\ a.expired = FALSE)
-  /\ (a.hash = NoHash => a.hashp = 0)
+  /\ (~a.cert => a.certc = 0 /\ a.certp = 0 /\ a.issc = 0 /\ a.iss = "" /\ a.sigok = FALSE /\ a.expired = FALSE)
+  /\ (a.hash = NoHash => a.hashp = 0 /\ a.hashi = "")
 
 TypeOK(s) ==
   /\ s.cfgc \in [Ents -> Contents] /\ s.prof \in Contents
-  /\ s.cfgNewer \in [Ents -> BOOLEAN] /\ s.issNewer \in [Ents -> BOOLEAN]
+  /\ s.par \in [Ents -> Ents \cup {""}] /\ \A e \in Ents : s.par[e] # e
+  /\ s.cfgNewer \in [Ents -> BOOLEAN]
+  /\ s.mt \in Seq(Ents) /\ Len(s.mt) = Cardinality({s.mt[i] : i \in DOMAIN s.mt})
+  /\ {s.mt[i] : i \in DOMAIN s.mt} = {e \in Ents : s.art[e].exists}
   /\ \A e \in Ents : ArtOK(s.art[e])
   /\ s.pc \in {"idle", "running"}
   /\ s.last \in {"none", "env", "run-ok", "run-failed", "died"}
@@ -80,20 +92,26 @@ TypeOK(s) ==
 (***************************************************************************)
 HasArt(a) == a.cert \/ a.key # "none"
 
+\* position of e's artifact in the modification-time order (0: no file)
+MtPos(s, e) == IF \E i \in DOMAIN s.mt : s.mt[i] = e THEN CHOOSE i \in DOMAIN s.mt : s.mt[i] = e ELSE 0
+\* the issuer's artifact file is newer than e's own (both exist)
+IssNewer(s, e) == s.par[e] # "" /\ MtPos(s, e) > 0 /\ MtPos(s, s.par[e]) > MtPos(s, e)
+Without(q, e) == SelectSeq(q, LAMBDA x : x # e)
+
 \* the profile part of e's effective configuration
 ProfOf(s, e) == IF e \in UsesProfile THEN s.prof ELSE 0
-HashCurrent(s, e) == s.art[e].hash = s.cfgc[e] /\ s.art[e].hashp = ProfOf(s, e)
+HashCurrent(s, e) == s.art[e].hash = s.cfgc[e] /\ s.art[e].hashp = ProfOf(s, e) /\ s.art[e].hashi = s.par[e]
 
 FactsOf(s, e) ==
   LET a == s.art[e]
-      p == Parent[e]
+      p == s.par[e]
   IN [ cert |-> a.cert, key |-> a.key = "key", csr |-> a.key = "csr",
        hash |-> IF a.hash = NoHash THEN "none" ELSE IF HashCurrent(s, e) THEN "equal" ELSE "different",
        \* without a file the database reports the zero time: the config is newer, the issuer's
        \* artifact (if it has a file) is newer
        cfgVsArt |-> IF ~a.exists THEN "newer" ELSE IF s.cfgNewer[e] THEN "newer" ELSE "older",
        issVsArt |-> IF p = "" \/ ~s.art[p].exists THEN "older"
-                    ELSE IF ~a.exists THEN "newer" ELSE IF s.issNewer[e] THEN "newer" ELSE "older",
+                    ELSE IF ~a.exists THEN "newer" ELSE IF IssNewer(s, e) THEN "newer" ELSE "older",
        expired |-> a.expired, cfgUnexpired |-> TRUE,
        hasIssuer |-> p # "", issuerHasArt |-> p # "" /\ HasArt(s.art[p]) ]
 
@@ -104,9 +122,9 @@ FactsOf(s, e) ==
 \* can be decoded (truncated by the user or by a crash).  Whether that counts as "its issuer's artifact
 \* is newer than its own" is not said; both decisions are allowed.
 UndecodableIssuerNewer(s, fl, e) ==
-  /\ fl # {} /\ Parent[e] # ""
-  /\ s.art[Parent[e]].exists /\ ~HasArt(s.art[Parent[e]])
-  /\ (~s.art[e].exists \/ s.issNewer[e])
+  /\ fl # {} /\ s.par[e] # ""
+  /\ s.art[s.par[e]].exists /\ ~HasArt(s.art[s.par[e]])
+  /\ (~s.art[e].exists \/ IssNewer(s, e))
 
 AllowedFor(s, fl, e, issuerPlanned) ==
   IF Reasons(FactsOf(s, e), fl, issuerPlanned) = {} /\ UndecodableIssuerNewer(s, fl, e)
@@ -114,22 +132,22 @@ AllowedFor(s, fl, e, issuerPlanned) ==
   ELSE AllowedDecision(FactsOf(s, e), fl, issuerPlanned)
 
 LegalSet(s, fl, S) ==
-  \A e \in Ents : (e \in S) \in AllowedFor(s, fl, e, Parent[e] # "" /\ Parent[e] \in S)
+  \A e \in Ents : (e \in S) \in AllowedFor(s, fl, e, s.par[e] # "" /\ s.par[e] \in S)
 PlanSets(s, fl) == {S \in SUBSET Ents : LegalSet(s, fl, S)}
 
 \* the entities every legal plan contains (silent corners resolved to "no")
 RECURSIVE Must(_, _, _, _)
 Must(s, fl, e, fuel) ==
   IF fuel = 0 THEN FALSE
-  ELSE Reasons(FactsOf(s, e), fl, Parent[e] # "" /\ Must(s, fl, Parent[e], fuel - 1)) # {}
+  ELSE Reasons(FactsOf(s, e), fl, s.par[e] # "" /\ Must(s, fl, s.par[e], fuel - 1)) # {}
 MustSet(s, fl) == {e \in Ents : Must(s, fl, e, Cardinality(Ents) + 1)}
 
 \* all orders of S in which every issuer precedes the entities it signs
-RECURSIVE TopoOrders(_)
-TopoOrders(S) ==
+RECURSIVE TopoOrders(_, _)
+TopoOrders(s, S) ==
   IF S = {} THEN {<<>>}
-  ELSE UNION { { <<e>> \o t : t \in TopoOrders(S \ {e}) } :
-               e \in {x \in S : Parent[x] \notin S} }
+  ELSE UNION { { <<e>> \o t : t \in TopoOrders(s, S \ {e}) } :
+               e \in {x \in S : s.par[x] \notin S} }
 
 (***************************************************************************)
 (* What one successful generation of entity e writes.                      *)
@@ -137,12 +155,14 @@ TopoOrders(S) ==
 \* GenerateArtifacts needs the issuer's certificate (for its subject DN and public key) and
 \* private key; a root signs itself and so needs a private key of its own (a request has none).
 Signable(s, e) ==
-  IF Parent[e] = "" THEN s.art[e].key # "csr"
-  ELSE s.art[Parent[e]].cert /\ s.art[Parent[e]].key = "key"
+  IF s.par[e] = "" THEN s.art[e].key # "csr"
+  ELSE s.art[s.par[e]].cert /\ s.art[s.par[e]].key = "key"
 
 NewArt(s, e) ==
-  [ exists |-> TRUE, hash |-> s.cfgc[e], hashp |-> ProfOf(s, e), cert |-> TRUE, certc |-> s.cfgc[e], certp |-> ProfOf(s, e), expired |-> FALSE,
-    issc  |-> IF Parent[e] = "" THEN s.cfgc[e] ELSE s.art[Parent[e]].certc,
+  [ exists |-> TRUE, hash |-> s.cfgc[e], hashp |-> ProfOf(s, e), hashi |-> s.par[e],
+    cert |-> TRUE, certc |-> s.cfgc[e], certp |-> ProfOf(s, e), expired |-> FALSE,
+    iss   |-> s.par[e],
+    issc  |-> IF s.par[e] = "" THEN s.cfgc[e] ELSE s.art[s.par[e]].certc,
     key   |-> IF s.art[e].key = "none" THEN "key" ELSE s.art[e].key,      \* C14: key material is kept
     sigok |-> TRUE ]
 
@@ -151,22 +171,20 @@ PutArt(s, e, a, freshKey) ==
   [ s EXCEPT
       !.art = [x \in Ents |->
                  IF x = e THEN a
-                 ELSE IF Parent[x] = e /\ s.art[x].cert
+                 ELSE IF s.art[x].iss = e /\ s.art[x].cert
                       THEN [s.art[x] EXCEPT !.sigok = IF freshKey \/ ~a.cert THEN FALSE ELSE @]
                       ELSE s.art[x]],
       !.cfgNewer = [@ EXCEPT ![e] = FALSE],
-      !.issNewer = [x \in Ents |-> IF x = e THEN FALSE
-                                   ELSE IF Parent[x] = e THEN s.art[x].exists
-                                   ELSE s.issNewer[x]] ]
+      !.mt = Without(@, e) \o <<e>> ]
 
 RemoveArt(s, e) ==
   [ s EXCEPT
       !.art = [x \in Ents |->
                  IF x = e THEN Absent
-                 ELSE IF Parent[x] = e /\ s.art[x].cert THEN [s.art[x] EXCEPT !.sigok = FALSE]
+                 ELSE IF s.art[x].iss = e /\ s.art[x].cert THEN [s.art[x] EXCEPT !.sigok = FALSE]
                  ELSE s.art[x]],
       !.cfgNewer = [@ EXCEPT ![e] = FALSE],
-      !.issNewer = [x \in Ents |-> IF x = e \/ Parent[x] = e THEN FALSE ELSE s.issNewer[x]] ]
+      !.mt = Without(@, e) ]
 
 Idle(s, last) == [s EXCEPT !.pc = "idle", !.plan = <<>>, !.pos = 0, !.last = last]
 NextEnt(s)   == s.plan[s.pos]
@@ -194,12 +212,13 @@ Apply(s, a) ==
     [] a.name = "Replace" ->       \* user-supplied self-signed certificate + key, no hash line,
                                    \* made for the current configuration
          IF s.pc = "idle"
-         THEN {[PutArt(s, a.e, [exists |-> TRUE, hash |-> NoHash, hashp |-> 0, cert |-> TRUE, certc |-> s.cfgc[a.e], certp |-> ProfOf(s, a.e),
-                                 issc |-> s.cfgc[a.e], key |-> "key", sigok |-> Parent[a.e] = "", expired |-> FALSE], TRUE)
+         THEN {[PutArt(s, a.e, [exists |-> TRUE, hash |-> NoHash, hashp |-> 0, hashi |-> "", cert |-> TRUE, certc |-> s.cfgc[a.e],
+                                 certp |-> ProfOf(s, a.e), iss |-> "", issc |-> s.cfgc[a.e], key |-> "key",
+                                 sigok |-> TRUE, expired |-> FALSE], TRUE)
                 EXCEPT !.last = "env", !.flags = {}]}
          ELSE {}
     [] a.name = "MakeCsr" ->       \* the file is replaced by a certificate request (leaf entities)
-         IF s.pc = "idle" /\ IsLeaf(a.e) /\ Parent[a.e] # ""
+         IF s.pc = "idle" /\ IsLeaf(s, a.e) /\ s.par[a.e] # ""
          THEN {[PutArt(s, a.e, [Absent EXCEPT !.exists = TRUE, !.key = "csr"], TRUE) EXCEPT !.last = "env", !.flags = {}]}
          ELSE {}
     [] a.name = "EditProfile" ->   \* the user changes the content of the shared profile
@@ -207,14 +226,22 @@ Apply(s, a) ==
     [] a.name = "Expire" ->        \* time passes: the certificate of e (intact chain, issuer key at hand) is now expired.
                                    \* No file is touched: the modification-time relations stay as they are.
          IF s.pc = "idle" /\ s.art[a.e].cert /\ ~s.art[a.e].expired /\ s.art[a.e].sigok /\ s.art[a.e].key = "key"
-            /\ (IF Parent[a.e] = "" THEN s.art[a.e].issc = s.art[a.e].certc
-                ELSE s.art[Parent[a.e]].cert /\ s.art[Parent[a.e]].key = "key" /\ s.art[a.e].issc = s.art[Parent[a.e]].certc)
+            /\ s.art[a.e].iss = s.par[a.e]
+            /\ (IF s.par[a.e] = "" THEN s.art[a.e].issc = s.art[a.e].certc
+                ELSE s.art[s.par[a.e]].cert /\ s.art[s.par[a.e]].key = "key" /\ s.art[a.e].issc = s.art[s.par[a.e]].certc)
          THEN {[s EXCEPT !.art[a.e].expired = TRUE, !.last = "env", !.flags = {}]}
+         ELSE {}
+    [] a.name = "SetIssuer" ->     \* the user writes another issuer (a.p, "" = none) into e's configuration.  No artifact is
+                                   \* touched.  A request-only entity cannot become a root or an issuer (it has no private key
+                                   \* to sign with): outside the model.
+         IF s.pc = "idle" /\ a.p \in AltParents[a.e] /\ a.p # s.par[a.e] /\ a.p # a.e
+            /\ (IF a.p = "" THEN s.art[a.e].key # "csr" ELSE s.art[a.p].key # "csr")
+         THEN {[s EXCEPT !.par[a.e] = a.p, !.cfgNewer[a.e] = s.art[a.e].exists, !.last = "env", !.flags = {}]}
          ELSE {}
     [] a.name = "StartRun" ->      \* Open + PlanBulkUpdate: a.plan is the plan (sequence of entities)
          IF s.pc = "idle" /\ a.fl \in FlagSets
             /\ { a.plan[i] : i \in DOMAIN a.plan } \in PlanSets(s, a.fl)
-            /\ a.plan \in TopoOrders({ a.plan[i] : i \in DOMAIN a.plan })
+            /\ a.plan \in TopoOrders(s, { a.plan[i] : i \in DOMAIN a.plan })
          THEN IF a.plan = <<>> THEN {[s EXCEPT !.flags = a.fl, !.last = "run-ok"]}
               ELSE {[s EXCEPT !.pc = "running", !.plan = a.plan, !.pos = 1, !.flags = a.fl, !.last = "env"]}
          ELSE {}
@@ -269,7 +296,7 @@ RunMacro(s, a) ==
 VARIABLES st, nenv      \* nenv counts environment actions (only when MaxEnv > 0)
 
 InitState ==
-  [ cfgc |-> [e \in Ents |-> 0], prof |-> 0, cfgNewer |-> [e \in Ents |-> FALSE], issNewer |-> [e \in Ents |-> FALSE],
+  [ cfgc |-> [e \in Ents |-> 0], prof |-> 0, par |-> Parent, cfgNewer |-> [e \in Ents |-> FALSE], mt |-> <<>>,
     art |-> [e \in Ents |-> Absent], pc |-> "idle", plan |-> <<>>, pos |-> 0, flags |-> {}, last |-> "none" ]
 
 Init == st = InitState /\ nenv = 0
@@ -288,7 +315,8 @@ ReplaceAct  == "Replace" \in EnvActs /\ \E e \in Ents : EnvStep([name |-> "Repla
 MakeCsrAct  == "MakeCsr" \in EnvActs /\ \E e \in Ents : EnvStep([name |-> "MakeCsr", e |-> e])
 EditProfileAct == "EditProfile" \in EnvActs /\ UsesProfile # {} /\ \E c \in Contents : EnvStep([name |-> "EditProfile", c |-> c])
 ExpireAct   == "Expire" \in EnvActs /\ \E e \in Ents : EnvStep([name |-> "Expire", e |-> e])
-StartRunAct == \E fl \in FlagSets : \E S \in PlanSets(st, fl) : \E p \in TopoOrders(S) :
+SetIssuerAct == "SetIssuer" \in EnvActs /\ \E e \in Ents : \E p \in AltParents[e] : EnvStep([name |-> "SetIssuer", e |-> e, p |-> p])
+StartRunAct == \E fl \in FlagSets : \E S \in PlanSets(st, fl) : \E p \in TopoOrders(st, S) :
                   Step([name |-> "StartRun", fl |-> fl, plan |-> p])
 WriteOKAct  == Step([name |-> "WriteOK"])
 SignFailAct == "SignFail" \in FaultActs /\ Step([name |-> "SignFail"])
@@ -297,7 +325,7 @@ WriteTornAct == "WriteTorn" \in FaultActs /\ \E c \in CutClasses : Step([name |-
 DieAct      == "Die" \in FaultActs /\ Step([name |-> "Die"])
 
 Next ==
-  \/ EditAct \/ TouchAct \/ DeleteAct \/ TruncateAct \/ StripKeyAct \/ ReplaceAct \/ MakeCsrAct \/ EditProfileAct \/ ExpireAct
+  \/ EditAct \/ TouchAct \/ DeleteAct \/ TruncateAct \/ StripKeyAct \/ ReplaceAct \/ MakeCsrAct \/ EditProfileAct \/ ExpireAct \/ SetIssuerAct
   \/ StartRunAct \/ WriteOKAct \/ SignFailAct \/ WriteErrAct \/ WriteTornAct \/ DieAct
 
 vars == <<st, nenv>>
@@ -313,9 +341,9 @@ KeyImpliesCert == \A e \in Ents : st.art[e].key = "key" => st.art[e].cert
 
 ChainOK(s, e) ==
   LET a == s.art[e] IN
-  /\ a.sigok
-  /\ IF Parent[e] = "" THEN a.issc = a.certc
-     ELSE s.art[Parent[e]].cert /\ a.issc = s.art[Parent[e]].certc
+  /\ a.sigok /\ a.iss = s.par[e]
+  /\ IF s.par[e] = "" THEN a.issc = a.certc
+     ELSE s.art[s.par[e]].cert /\ a.issc = s.art[s.par[e]].certc
 
 Converged(s) ==
   \A e \in Ents :
@@ -342,7 +370,7 @@ RunsThrough(s, plan) ==
   ELSE /\ Signable(s, Head(plan))
        /\ RunsThrough(PutArt(s, Head(plan), NewArt(s, Head(plan)), s.art[Head(plan)].key = "none"), Tail(plan))
 DefaultRunCompletes ==
-  st.pc = "idle" => \A p \in TopoOrders(MustSet(st, DefaultFlags)) : RunsThrough(st, p)
+  st.pc = "idle" => \A p \in TopoOrders(st, MustSet(st, DefaultFlags)) : RunsThrough(st, p)
 
 \* C12: an artifact the user supplied without a hash line is not refreshed merely because its
 \* configuration differs: with the default flags it is planned only if its issuer is planned or newer
@@ -351,7 +379,7 @@ NoRefreshWithoutHash ==
     \A e \in Ents :
       LET a == st.art[e] IN
       (a.hash = NoHash /\ a.cert /\ a.key # "none" /\ e \in MustSet(st, DefaultFlags)) =>
-         (Parent[e] # "" /\ (Parent[e] \in MustSet(st, DefaultFlags) \/ st.issNewer[e]))
+         (st.par[e] # "" /\ (st.par[e] \in MustSet(st, DefaultFlags) \/ IssNewer(st, e)))
 
 \* C14 as an action property: a write never changes the kind of existing key material
 KeysKept == [][\A e \in Ents : st.art[e].key # "none" /\ st.pc = "running" /\ st'.art[e].exists
